@@ -528,7 +528,7 @@ def analyze(ctx, want):
             if var != "Some":
                 good = False
                 det = "match start may still be None when candidates are examined (value %s)" % (S.vstr(v) if v else None)
-            w = [e for e in p.events if e[0] == "write" and e[2][0] == "local" and e[2][2] == l and not e[3]]
+            w = [e for e in p.events if e[0] == "write" and e[2][0] == "local" and e[2][2] == l and not e[3] and e[4] != ("sym", start_name)]
             for e in w:
                 val = e[4]
                 pv = val[3][0] if val[0] == "adt" and val[2] == "Some" else val
